@@ -1,5 +1,436 @@
 package eng
 
-func cmdCheck(args []string) int    { return 2 }
-func cmdReplay(args []string) int   { return 2 }
-func cmdSelftest(args []string) int { return 2 }
+import (
+	"encoding/json"
+	"fmt"
+	"os"
+	"path/filepath"
+	"sort"
+	"strconv"
+	"strings"
+	"time"
+)
+
+type KnownFinding struct {
+	Property   string `json:"property"`
+	Obligation string `json:"obligation"`
+	Status     string `json:"status"` // open | fixed
+	Commit     string `json:"commit,omitempty"`
+	WhatFails  string `json:"what_fails"`
+	Witness    string `json:"witness,omitempty"`
+	Defect     string `json:"defect,omitempty"`
+}
+
+func loadKnownFindings() []KnownFinding {
+	var out struct {
+		Findings []KnownFinding `json:"findings"`
+	}
+	b, err := os.ReadFile(filepath.Join(VerifDir, "known_findings.json"))
+	if err != nil {
+		return nil
+	}
+	if err := json.Unmarshal(b, &out); err != nil {
+		fmt.Fprintln(os.Stderr, "known_findings.json:", err)
+		return nil
+	}
+	return out.Findings
+}
+
+// propertyPlan describes what a property check verifies.
+type propertyPlan struct {
+	ID     string
+	Level  string // proof | other
+	Pkgs   []string
+	Extra  func(s *Session, tier string) []*FuncResult // structural / generated-code checks
+	Explain string
+}
+
+func hasProp(props []string, id string) bool {
+	for _, p := range props {
+		if p == id {
+			return true
+		}
+	}
+	return false
+}
+
+func tagsHaveProp(tags []string, id string) bool {
+	for _, t := range tags {
+		if t == id || strings.HasPrefix(t, id+".") {
+			return true
+		}
+	}
+	return false
+}
+
+func cmdCheck(args []string) int {
+	if len(args) < 1 {
+		fmt.Fprintln(os.Stderr, "usage: gvc check <property> [--tier quick|thorough]")
+		return 2
+	}
+	id := args[0]
+	tier := envOr("VERIF_TIER", "quick")
+	for i := 1; i < len(args); i++ {
+		if args[i] == "--tier" && i+1 < len(args) {
+			tier = args[i+1]
+			i++
+		}
+	}
+	seed, _ := strconv.Atoi(envOr("VERIF_SEED", "0"))
+	return RunCheck(id, tier, seed)
+}
+
+type sample struct {
+	Obligation string `json:"obligation"`
+	Kind       string `json:"kind"`
+	Source     string `json:"source,omitempty"`
+	Where      string `json:"where,omitempty"`
+	VCs        int    `json:"vcs"`
+	Status     string `json:"status"`
+	Backend    string `json:"backend"`
+	Millis     int64  `json:"ms"`
+}
+
+func RunCheck(id, tier string, seed int) int {
+	v, _ := runCheck(id, tier, seed, nil, false)
+	if v < 0 {
+		return 2
+	}
+	if v > 0 {
+		return 1
+	}
+	return 0
+}
+
+// runCheck runs the check of one property. With an overlay (self-test mutants) it
+// prints nothing and writes no evidence; it returns the number of violations and the
+// names of the failed obligations.
+func runCheck(id, tier string, seed int, overlay map[string][]byte, quiet bool) (int, []string) {
+	t0 := time.Now()
+	plan, ok := plans[id]
+	if !ok {
+		fmt.Fprintf(os.Stderr, "no check is built for %s (see MANIFEST.json not_applicable)\n", id)
+		return -1, nil
+	}
+	printf := func(format string, a ...interface{}) {
+		if !quiet {
+			fmt.Printf(format, a...)
+		}
+	}
+	timeout := 10000
+	if tier == "thorough" {
+		timeout = 60000
+	}
+	s, err := NewSession(plan.Pkgs, timeout, seed, tier == "thorough", overlay)
+	replayDir := filepath.Join(VerifDir, "out", "replay", id)
+	if quiet {
+		replayDir = filepath.Join(os.TempDir(), "gvc-selftest-replay", id)
+	}
+	os.MkdirAll(replayDir, 0o755)
+	os.MkdirAll(filepath.Join(VerifDir, "evidence"), 0o755)
+	if err != nil {
+		// the tree does not load (type error) or a contract file does not parse
+		f := filepath.Join(replayDir, "load-error.json")
+		writeJSON(f, map[string]interface{}{"property": id, "obligation": "load", "error": err.Error()})
+		printf("VIOLATION property=%s replay=%s no-failing-input-found\n", id, f)
+		if !quiet {
+			writeEvidence(id, tier, seed, "other", map[string]interface{}{"explanation": "the working tree or a contract file failed to load: " + err.Error(), "obligations": 0, "discharged": 0}, nil, time.Since(t0).Seconds(), 1)
+		}
+		return 1, []string{"load: " + err.Error()}
+	}
+	defer s.Close()
+
+	// functions under contract for this property
+	var names []string
+	for _, n := range s.CS.Order {
+		fc := s.CS.Funcs[n]
+		if fc.Trusted {
+			continue
+		}
+		if hasProp(fc.Props, id) || hasProp(fc.NoPanicProps, id) {
+			names = append(names, n)
+		}
+	}
+	results := s.VerifyNamed(names)
+	results = append(results, s.VerifyLemmas(func(l *Lemma) bool { return tagsHaveProp(l.Tags, id) })...)
+	if plan.Extra != nil {
+		results = append(results, plan.Extra(s, tier)...)
+	}
+	SolveAll(s.R, results)
+
+	known := loadKnownFindings()
+	isKnown := func(name string) *KnownFinding {
+		for i := range known {
+			k := &known[i]
+			if k.Property == id && k.Status == "open" && k.Obligation == name {
+				return k
+			}
+		}
+		return nil
+	}
+
+	var (
+		nObl, nDis, nVC, nCover, nUndec int
+		violations                      int
+		samples                         []sample
+		byBackend                       = map[string]int{}
+		underContract, inlined, byContract, abstracted, userCalls []string
+		notes                           []string
+		kfLines                         []string
+		failedNames                     []string
+		slow                            []sample
+	)
+	seenStr := map[string]bool{}
+	addU := func(dst *[]string, xs []string) {
+		for _, x := range xs {
+			if !seenStr[fmt.Sprintf("%p", dst)+x] {
+				seenStr[fmt.Sprintf("%p", dst)+x] = true
+				*dst = append(*dst, x)
+			}
+		}
+	}
+	report := func(o *Oblig, fr *FuncResult, reason string) {
+		if k := isKnown(o.Name); k != nil {
+			kfLines = append(kfLines, fmt.Sprintf("KNOWN-FINDING: property=%s %s: %s", id, o.Name, k.WhatFails))
+			return
+		}
+		violations++
+		failedNames = append(failedNames, o.Name)
+		f := filepath.Join(replayDir, mangle(o.Name)+".json")
+		rep := map[string]interface{}{"property": id, "obligation": o.Name, "kind": o.Kind, "status": o.Status, "reason": reason,
+			"where": o.PosStr, "contract_clause": o.Src, "detail": o.Detail, "tags": o.Tags}
+		suffix := " no-failing-input-found"
+		for _, vc := range o.VCs {
+			if vc.Res != nil && vc.Res.Status != "unsat" && o.Expect == "" {
+				rep["path"] = vc.Path
+				rep["solver"] = vc.Res.Solver
+				rep["solver_status"] = vc.Res.Status
+				rep["solver_output"] = truncate(vc.Res.Output, 4000)
+				if vc.Model != "" {
+					rep["model"] = truncate(vc.Model, 20000)
+				}
+				smt := filepath.Join(replayDir, mangle(o.Name)+".smt2")
+				os.WriteFile(smt, []byte(DumpVC(fr, vc)), 0o644)
+				rep["smt_query"] = smt
+				if quiet {
+					break
+				}
+				if rp := tryReplay(s, id, o, fr, vc, replayDir); rp != nil {
+					rep["replay"] = rp
+					if rp.Reproduced {
+						suffix = ""
+					}
+				}
+				break
+			}
+		}
+		writeJSON(f, rep)
+		printf("VIOLATION property=%s replay=%s%s\n", id, f, suffix)
+	}
+
+	for _, fr := range results {
+		if fr.Trusted {
+			continue
+		}
+		if fr.HasContract || strings.HasPrefix(fr.Name, "lemma ") {
+			underContract = append(underContract, fr.Name)
+		}
+		addU(&inlined, fr.Inlined)
+		addU(&byContract, fr.ByContract)
+		addU(&abstracted, fr.Abstracted)
+		addU(&userCalls, fr.UserCalls)
+		for _, n := range fr.Notes {
+			addU(&notes, []string{fr.Name + ": " + n})
+		}
+		if fr.Err != "" {
+			violations++
+			f := filepath.Join(replayDir, mangle(fr.Name)+"_error.json")
+			writeJSON(f, map[string]interface{}{"property": id, "obligation": fr.Name + "/generate", "error": fr.Err,
+				"reason": "the obligations of this function could not be generated from the working tree (contract drift or unsupported code); they were discharged on the unchanged tree"})
+			printf("VIOLATION property=%s replay=%s no-failing-input-found\n", id, f)
+			failedNames = append(failedNames, fr.Name+"/generate: "+truncate(fr.Err, 200))
+			continue
+		}
+		for _, o := range fr.Obligs {
+			mine := hasProp(o.Props, id) || o.Kind == "cover" || o.Kind == "drift"
+			if !mine {
+				continue
+			}
+			if o.Kind == "cover" {
+				nCover++
+				if o.Status != "discharged" {
+					report(o, fr, "vacuity guard: the path condition reaching this point is unsatisfiable (contradictory requires/invariant)")
+				}
+				continue
+			}
+			nObl++
+			nVC += len(o.VCs)
+			byBackend[o.Backend]++
+			sm := sample{Obligation: o.Name, Kind: o.Kind, Source: o.Src, Where: o.PosStr, VCs: len(o.VCs), Status: o.Status, Backend: o.Backend, Millis: o.Millis}
+			slow = append(slow, sm)
+			switch o.Status {
+			case "discharged":
+				nDis++
+				if len(samples) < 12 && (o.Kind == "ensures" || o.Kind == "lemma" || o.Kind == "invariant-pres" || o.Kind == "hook" || len(samples) < 4) {
+					samples = append(samples, sm)
+				}
+			case "failed":
+				report(o, fr, "the verifier refuted this obligation on the current tree")
+				samples = append(samples, sm)
+			default:
+				nUndec++
+				report(o, fr, "no solver could discharge this obligation on the current tree ("+o.Detail+"); it is discharged on the unchanged tree")
+				samples = append(samples, sm)
+			}
+		}
+	}
+	for _, l := range kfLines {
+		printf("%s\n", l)
+	}
+	sort.Slice(slow, func(i, j int) bool { return slow[i].Millis > slow[j].Millis })
+	if len(slow) > 5 {
+		slow = slow[:5]
+	}
+	if len(samples) == 0 && len(slow) > 0 {
+		samples = slow[:1]
+	}
+
+	// assumptions: mechanical scan + standing trusted base
+	assumptions := append([]string{}, standingAssumptions...)
+	for _, a := range s.CS.Assumptions {
+		assumptions = append(assumptions, a)
+	}
+	for _, a := range abstracted {
+		assumptions = append(assumptions, "callee without contract, results havocked, assumed not to modify gorums state beyond its computed write set: "+a)
+	}
+	for _, a := range userCalls {
+		assumptions = append(assumptions, "user-supplied function value treated as uninterpreted (terminates, does not panic, does not mutate its arguments' gorums state): "+a)
+	}
+	for _, n := range notes {
+		assumptions = append(assumptions, "abstraction: "+n)
+	}
+
+	level := plan.Level
+	if len(kfLines) > 0 || nObl == 0 {
+		level = "other"
+	}
+	cov := map[string]interface{}{
+		"obligations":              nObl,
+		"discharged":               nDis,
+		"undecided":                nUndec,
+		"verification_conditions":  nVC,
+		"covers_checked":           nCover,
+		"known_findings_open":      len(kfLines),
+		"by_backend":               byBackend,
+		"solver_wall_ms":           s.R.TotalMs,
+		"solver_queries":           s.R.Queries,
+		"load_s":                   s.LoadSecs,
+		"checker_cmd":              fmt.Sprintf("/verif/bin/gvc check %s --tier %s", id, tier),
+		"trusted_base":             trustedBase,
+		"functions_under_contract": underContract,
+		"callees_inlined":          inlined,
+		"callees_by_contract":      byContract,
+		"callees_abstracted":       abstracted,
+		"samples":                  samples,
+		"slowest":                  slow,
+		"explanation":              plan.Explain,
+		"failed_obligations":       failedNames,
+		"solvers":                  s.R.BySolver,
+	}
+	if nObl == 0 {
+		violations++
+		printf("VIOLATION property=%s replay=%s no-failing-input-found\n", id, filepath.Join(replayDir, "no-obligations.json"))
+		writeJSON(filepath.Join(replayDir, "no-obligations.json"), map[string]interface{}{"property": id, "obligation": "vacuity", "reason": "no obligation was generated for this property"})
+	}
+	if quiet {
+		return violations, failedNames
+	}
+	writeEvidence(id, tier, seed, level, cov, assumptions, time.Since(t0).Seconds(), violations)
+	fmt.Printf("%s %s: %d obligations, %d discharged, %d undecided, %d known findings, %d violations, %d VCs, %d covers, %.1fs\n",
+		id, tier, nObl, nDis, nUndec, len(kfLines), violations, nVC, nCover, time.Since(t0).Seconds())
+	return violations, failedNames
+}
+
+func truncate(s string, n int) string {
+	if len(s) > n {
+		return s[:n] + "…"
+	}
+	return s
+}
+
+func writeJSON(path string, v interface{}) {
+	b, _ := json.MarshalIndent(v, "", " ")
+	os.WriteFile(path, b, 0o644)
+}
+
+func writeEvidence(id, tier string, seed int, level string, cov map[string]interface{}, assumptions []string, wall float64, violations int) {
+	if tier != "quick" && tier != "thorough" {
+		tier = "quick"
+	}
+	ev := map[string]interface{}{
+		"property_id": id, "tier": tier, "seed": seed, "level": level, "coverage": cov,
+		"assumptions": assumptions, "wall_s": wall, "violations": violations,
+	}
+	writeJSON(filepath.Join(VerifDir, "evidence", id+".json"), ev)
+}
+
+var trustedBase = []string{
+	"go/packages + go/types + go/ssa (x/tools v0.29.0, NaiveForm) translate /repo's working tree faithfully",
+	"gvc's instruction semantics (DESIGN.md section 2.3, Appendix A) and its soundness argument for monitors, credits and ownership modes",
+	"z3 5.1.0, z3 4.8.12, cvc5 1.0.3",
+}
+
+var standingAssumptions = []string{
+	"integers are mathematical (machine overflow not modelled unless an overflow obligation is generated)",
+	"interleavings of other goroutines are not enumerated: they are represented by monitor invariants, rely clauses and ownership modes",
+	"Go channels are FIFO; a buffered send with free capacity does not block; sync.Mutex/RWMutex/Once behave as documented",
+	"termination is proved only for loops carrying a decreases clause",
+}
+
+type replayResult struct {
+	Harness    string `json:"harness"`
+	Test       string `json:"generated_test,omitempty"`
+	Output     string `json:"output,omitempty"`
+	Reproduced bool   `json:"reproduced"`
+	Command    string `json:"command,omitempty"`
+}
+
+func cmdReplay(args []string) int {
+	if len(args) < 1 {
+		fmt.Fprintln(os.Stderr, "usage: gvc replay <file>")
+		return 2
+	}
+	b, err := os.ReadFile(args[0])
+	if err != nil {
+		fmt.Fprintln(os.Stderr, err)
+		return 2
+	}
+	var rep map[string]interface{}
+	if err := json.Unmarshal(b, &rep); err != nil {
+		fmt.Fprintln(os.Stderr, err)
+		return 2
+	}
+	fmt.Printf("obligation: %v\nproperty: %v\nreason: %v\n", rep["obligation"], rep["property"], rep["reason"])
+	if q, ok := rep["smt_query"].(string); ok {
+		if _, err := os.Stat(q); err == nil {
+			for _, sp := range solvers[:1] {
+				st, out := runOne(sp, q, 20000, 0)
+				fmt.Printf("re-running %s on %s: %s\n%s\n", sp.name, q, st, truncate(out, 3000))
+			}
+		}
+	}
+	if r, ok := rep["replay"].(map[string]interface{}); ok {
+		if t, ok := r["generated_test"].(string); ok && t != "" {
+			out, repro := runReplayTest(t)
+			fmt.Println(out)
+			if repro {
+				fmt.Println("replay: the failure reproduces on the real code")
+				return 1
+			}
+			fmt.Println("replay: the failure did not reproduce")
+		}
+	}
+	return 0
+}
+
+func cmdSelftest(args []string) int { return Selftest(args) }
